@@ -413,6 +413,35 @@ def judge_bounded(pat, threads, n, every, base, samples):
     return out
 
 
+# ---------------------------------------------------------------- (c) shadowed globals over many evaluation units
+def work_redefine(item):
+    """top-level re-definitions spread over separate evaluations: the objects of shadowed definitions must be reclaimed and the global
+    table must stop growing (slots of shadowed definitions are recycled)"""
+    n_units, every, shape = item
+    steps = [PRE, "(begin (#%gc-collect) void)", "(stats)"]
+    marks = []
+    for k in range(1, n_units + 1):
+        if shape == "three-names":
+            steps.append("(define r0 (box %d)) (define r1 (vector %d 0)) (define r2 (MNode %d))" % (k, k, k))
+        elif shape == "one-name":
+            steps.append("(define r0 (box %d))" % k)
+        else:  # functions closing over a mutable object, redefined
+            steps.append("(define r0 (let ((b (box %d))) (lambda () (unbox b))))" % k)
+        if k % every == 0:
+            steps += ["(begin (#%gc-collect) void)", "(stats)", {"op": "symstats"}]
+            marks.append(len(steps) - 2)
+    r = common.run_cases([{"id": 0, "steps": steps}], batch=1, timeout_ms=300000)[0]
+    if r["exit"] != "normal" or len(r["steps"]) != len(steps):
+        return (item, None, "run failed: %s after %d of %d steps" % (r["exit"], len(r["steps"]), len(steps)))
+    base = parse_stats(r["steps"][2]["v"][-1])
+    samples = []
+    for m in marks:
+        s = parse_stats(r["steps"][m]["v"][-1])
+        sym = r["steps"][m + 1]["v"]
+        samples.append(((s[0] - s[1]) - (base[0] - base[1]), (s[6] - s[7]) - (base[6] - base[7]), sym[4], s[1] == s[2] and s[7] == s[8]))
+    return (item, samples, None)
+
+
 def main(argv=None):
     a = common.parse_args(argv)
     if a.replay:
@@ -453,12 +482,35 @@ def main(argv=None):
             if v2 > 2 * v1 or c2 > 2 * c1:
                 rep.violation("bounded %s natural policy :: heap slots keep growing with the number of iterations" % pat, {"pattern": pat, "max_slots_per_N": {str(n_): rungs[n_] for n_ in ns}},
                               {"case": {"steps": bounded_program(pat, ns[-1], 1, 0)}, "env": None})
-    cov = {"evaluations": n_trans + n_trans2 + len(items), "distinct_nontrivial": n_states + n_states2,
+    n_units = 9000 if a.tier == "thorough" else 3000
+    ritems = [(n_units, 100, sh) for sh in ("three-names", "one-name", "closure-over-box")]
+    for item, samples, err in common.pmap(work_redefine, ritems):
+        shape = item[2]
+        if err:
+            rep.violation("redefinition %s :: %s" % (shape, err[:120]), {"shape": shape, "error": err}, {"case": {"steps": ["(define r0 (box 1))"]}, "env": None})
+            continue
+        table["redefinition/" + shape] = {"samples": len(samples), "in_use_above_baseline": sorted(set((x[0], x[1]) for x in samples))[:6], "global_slots_first_last": [samples[0][2], samples[-1][2]]}
+        # shadowed definitions are reclaimed in batches (the recycler runs when enough slots are shadowed): what is in use oscillates;
+        # it must not drift upwards and the global table must stop growing
+        third = len(samples) // 3
+        early, late = samples[:2 * third], samples[2 * third:]
+        e_used = (max(x[0] for x in early), max(x[1] for x in early))
+        l_used = (max(x[0] for x in late), max(x[1] for x in late))
+        if l_used[0] > e_used[0] * 1.25 + 64 or l_used[1] > e_used[1] * 1.25 + 64:
+            rep.violation("redefinition %s :: leak :: slots held by shadowed top-level definitions keep growing (max %s above the baseline in the first two thirds of the run, %s in the last third)"
+                          % (shape, e_used, l_used), {"shape": shape, "samples": samples}, {"case": {"steps": [PRE, "(define r0 (box 1))", "(define r0 (box 2))", "(begin (#%gc-collect) void)", "(stats)"]}, "env": None})
+        g_late = [x[2] for x in late]
+        if max(g_late) - min(g_late) > 8 or max(g_late) > max(x[2] for x in early) + 160:
+            rep.violation("redefinition %s :: global-table-growth :: the global table keeps growing with the number of re-definitions (slots per sample in the last third: %s)" % (shape, g_late[:12]),
+                          {"shape": shape, "global_slots": [x[2] for x in samples]}, {"case": {"steps": [PRE, "(define r0 (box 1))", "(define r0 (box 2))", {"op": "symstats"}]}, "env": None})
+        if not all(x[3] for x in samples):
+            rep.violation("redefinition %s :: accounting :: alloc_count differs from the number of free slots" % shape, {"shape": shape}, {"case": {"steps": [PRE]}, "env": None})
+    cov = {"evaluations": n_trans + n_trans2 + len(items) + len(ritems) * n_units, "distinct_nontrivial": n_states + n_states2,
            "rule": "(a) BFS to depth %d over %d event kinds on 3 roots, <= %d objects; every (state, enabled event) pair executed on a fresh real engine by replaying the "
                    "shortest history of the state; state = canonical form of the twin heap graph (roots, edges, closure/continuation/weak holders, pending garbage); "
                    "second BFS to depth %d with a forced full collection at every allocation; (b) %d garbage patterns x {1,2} threads, %d iterations with a full collection and a sample of the heap "
                    "statistics every %d iterations (exact: slots in use == baseline; peak slot count of successive growth/compaction cycles does not rise; accounting "
-                   "invariant at every sample); thorough: natural growth/compaction policy over the ladder %s" % (depth, 15, MAXOBJ, depth - 1, len(PATTERNS), n_iter, every, ladder),
+                   "invariant at every sample); thorough: natural growth/compaction policy over the ladder %s; (c) %d top-level re-definitions in separate evaluations x 3 shapes, sampled every 100: objects of shadowed definitions reclaimed, global table bounded" % (depth, 15, MAXOBJ, depth - 1, len(PATTERNS), n_iter, every, ladder, n_units),
            "samples": [" ".join(replay_steps((("new", 0, "box"), ("link", 0, 0), ("drop", 0), ("gc",)))[::2]), bounded_program("mixed-cycle-4", 1000, 1, 500)[1][:200]],
            "exhaustive": True, "states": n_states, "transitions": n_trans, "states_gc_every": n_states2, "transitions_gc_every": n_trans2, "slot_maxima": table}
     return rep.finish("model_checking", cov, assumptions=["slot cost per object kind is calibrated once in the initial state of each run and must then hold in every state",
